@@ -64,6 +64,47 @@ def extra_obligations(reg):
                         note='every model line matches %r' % lit, func='_parse_file'))
         out.append(dict(name='DAT_parser.py:%s-canary' % nm, pc=[z3.Length(s) <= 30], goal=z3.InRe(s, lang), note='must fail', func='_parse_file',
                         expect_fail=True))
+    out += _conversion_choice(reg)
+    return out
+
+
+def _conversion_choice(reg):
+    """_ret_conversion_function executed by the engine on a channel with symbolic name and units: on every path the function
+    returned is the one the property names for that (name, units): the three date/time parsers for their columns, the
+    builtin float for every other column ("numeric columns as floats")."""
+    import z3
+    from pyvc import source
+    from pyvc.engine import Engine, State, Frame, UserFn
+    from pyvc.kinds import Rec, ContractError
+    mod = source.load(DP)
+    fn = mod.functions.get('_ret_conversion_function')
+    if fn is None:
+        raise ContractError('_ret_conversion_function not found')
+    ident, units = z3.String('ident'), z3.String('units')
+    eng = Engine(reg, 'C14')
+    st = State()
+    eng.frames.append(Frame(mod, '<C14 conversion choice>', None))
+    eng.sinks.append([])
+    try:
+        paths = eng.inline_call(UserFn(mod, '_ret_conversion_function', fn, None), [Rec('FrameChannel', {'ident': ident, 'units': units})], {}, st, fn, merge=False)
+    finally:
+        eng.sinks.pop()
+        eng.frames.pop()
+    key = lambda a, b: z3.And(ident == z3.StringVal(a), units == z3.StringVal(b))     # noqa: E731
+    want = {'_unit_unix_time_to_datetime_datetime': key('UTIM', 'sec'), '_unit_ddmmyy_to_datetime_date': key('DATE', 'ddmmyy'),
+            '_unit_hhmmyy_to_datetime_time': key('TIME', 'hhmmss')}
+    want['float'] = z3.Not(z3.Or(*want.values()))
+    out = []
+    for n_, (s_, v_) in enumerate(paths):
+        nm = getattr(v_, 'qual', None) or getattr(v_, 'name', None) or repr(v_)
+        goal = want.get(nm, z3.BoolVal(False))
+        out.append(dict(name='DAT_parser.py:_ret_conversion_function/path#%d-returns-the-conversion-of-its-column' % n_, pc=list(s_.pc), goal=goal,
+                        note='on this path %s is returned: allowed exactly for its own (name, units) / for every other column in the case of float' % nm,
+                        func='_ret_conversion_function'))
+    # every column gets a conversion: the paths cover all (name, units)
+    out.append(dict(name='DAT_parser.py:_ret_conversion_function/every-column-has-a-conversion', pc=[z3.Not(z3.And(*s_.pc)) if s_.pc else z3.BoolVal(False) for s_, _ in paths],
+                    goal=z3.BoolVal(False), note='no (name, units) is left without a returned function', func='_ret_conversion_function'))
+    out.append(dict(name='DAT_parser.py:_ret_conversion_function/canary', pc=[], goal=want['float'], note='must fail', func='_ret_conversion_function', expect_fail=True))
     return out
 
 
